@@ -545,9 +545,69 @@ def run_twice(case):
     return result(1 + n, outcome('twice', tplk, got), fails)
 
 
+# ---- space 7: (a) an element-wise operation over the result of an IS* function stored into a larger destination: the padding is
+#      #N/A (or the operation applied to #N/A), never the fill value of the inner result; (b) one element for which the function has
+#      no ordinary answer (a huge magnitude, a character outside the code table) next to ordinary elements: only ITS position is odd
+PADDED = ['=IF(ISNUMBER(%s),"y","n")', '=ISNUMBER(%s)*1', '=NOT(ISTEXT(%s))', '=ISERROR(%s)&""', '=-ISBLANK(%s)', '=IF(ISTEXT(%s),1,0)+1', '=ISNUMBER(%s)=TRUE',
+          '=ABS(ISLOGICAL(%s))', '=ISNUMBER(-%s)', '=UPPER(ISERROR(%s))']
+ODDBALL = [('INT', N(1e20)), ('EVEN', N(1e20)), ('ODD', N(-1e20)), ('CODE', T('\u4e2d')), ('FACT', N(25)), ('CEILING.MATH', N(1e20)), ('FLOOR.MATH', N(1e20)),
+           ('TRUNC', N(1e300)), ('ROUND', N(1e300)), ('CHAR', N(70000)), ('SQRT', N(1e308)), ('EXP', N(1000)), ('LN', N(0)), ('ABS', N(-1e308))]
+ORDINARY = {'CODE': [T('a'), T('Z')], 'CHAR': [N(65), N(97)]}
+
+
+def odd_cases(tier):
+    for i in range(len(PADDED)):
+        for shp in ('1x2', '2x1', '2x2', '1x3'):
+            yield ['padded', i, shp]
+    for i in range(len(ODDBALL)):
+        for pos in (0, 1, 2):
+            for orient in ('row', 'col'):
+                for mode in ('lit', 'rng'):
+                    yield ['oddball', i, pos, orient, mode]
+
+
+def run_odd(case):
+    from xl.evalcell import eval_formula
+    fails = []
+    if case[0] == 'padded':
+        _, i, shp = case
+        tpl = PADDED[i]
+        m, n = L.parse_shape(shp)
+        v = [[(N(3), T('tx'), B(True), ERR, BLANK, N(-1))[(r * n + c) % 6] for c in range(n)] for r in range(m)]
+        inputs = {}
+        arg = spell(v, 0, 'rng', inputs)
+        txt = tpl % arg
+        got = eval_formula(txt, inputs, ref=dest((m + 1, n + 1)), scalar=False)
+        one = lambda e: scalar_eval(tpl, 'rng', (e,))
+        exp = L.fit([[one(e) for e in row] for row in v], m + 1, n + 1)
+        fna = one(NAV)
+        alt = [[fna if (r >= m or c >= n) else None for c in range(n + 1)] for r in range(m + 1)]
+        if not has_bad(exp) and not same(got, exp, alt):
+            fails.append(Fail('fit-escape' if isinstance(got, tuple) else 'fit-wrong', got=got, exp=exp, producer=tpl, mode='rng', result=shp, dest='%dx%d' % (m + 1, n + 1),
+                              rclass='is-result', variant='padded', surplus=False, same_size=False, formula=txt))
+        return result(1 + m * n, outcome('padded', str(i), got), fails)
+    _, i, pos, orient, mode = case
+    fn, odd = ODDBALL[i]
+    ordv = ORDINARY.get(fn, [N(2), N(3.5)])
+    vec = list(ordv)
+    vec.insert(pos, odd)
+    v = [vec] if orient == 'row' else [[x] for x in vec]
+    inputs = {}
+    tpl = '=%s(%%s)' % fn
+    txt = tpl % spell(v, 0, mode, inputs)
+    got = eval_formula(txt, inputs, ref=dest((1, 3) if orient == 'row' else (3, 1)), scalar=False)
+    exp = [[scalar_eval(tpl, mode, (e,)) for e in row] for row in v]
+    if has_bad(exp):
+        return result(4, ['oddball:%s:scalar-escape' % fn])
+    if not same(got, exp):
+        fails.append(Fail('lift-escape' if isinstance(got, tuple) else 'lift-wrong', got=got, exp=exp, fn=fn, shapes=orient, classes='oddball', result=orient, mode=mode,
+                          variant='oddball@%d' % pos, varg=0, formula=txt))
+    return result(4, outcome('oddball', fn, got), fails)
+
+
 # ---- driver ---------------------------------------------------------------------
 def run_case(case):
-    return {'lift': run_lift, 'fit': run_fit, 'count': run_count, 'compose': run_compose, 'mixed': run_mixed, 'twice': run_twice}[case[0]](case)
+    return {'lift': run_lift, 'fit': run_fit, 'count': run_count, 'compose': run_compose, 'mixed': run_mixed, 'twice': run_twice, 'padded': run_odd, 'oddball': run_odd}[case[0]](case)
 
 
 def run(ctx):
@@ -563,6 +623,7 @@ def run(ctx):
     ctx.explore(run_case, compose_cases(ctx.tier), chunksize=16, label='compose')
     ctx.explore(run_case, mixed_cases(ctx.tier), chunksize=64, label='mixed_kinds')
     ctx.explore(run_case, twice_cases(ctx.tier), chunksize=64, label='range_read_twice')
+    ctx.explore(run_case, odd_cases(ctx.tier), chunksize=8, label='padded_is_results_and_oddball_elements')
     return {'max_dim': 3 if ctx.tier == 'quick' else 4, 'operators': len(BIN) + len(UNA),
             'functions': len(FUNCS) + (len(FUNCS4) if ctx.tier == 'thorough' else 0),
             'oracle_audit': {k: v for k, v in audit.items() if k != 'disagreements'}}
